@@ -166,7 +166,7 @@ func matchReviewed(c *Ctx, table map[string]string, funcs []*ssa.Function, obsBy
 					if efn == nil || allSites[site] || used[site] {
 						continue
 					}
-					if _, calls := staticCalleesIn(c, efn)[fn]; !calls {
+					if !callsWithin(c, efn, fn, 2) {
 						continue
 					}
 					if arg == "" {
@@ -192,4 +192,18 @@ func matchReviewed(c *Ctx, table map[string]string, funcs []*ssa.Function, obsBy
 			adoptedByNorm[nk]++
 		}
 	}
+}
+
+// callsWithin: `from` reaches `to` over at most depth static calls inside the package (a construct that
+// moved into a helper of a helper is still the construct the reviewed argument is about).
+func callsWithin(c *Ctx, from, to *ssa.Function, depth int) bool {
+	if depth == 0 {
+		return false
+	}
+	for g := range staticCalleesIn(c, from) {
+		if g == to || callsWithin(c, g, to, depth-1) {
+			return true
+		}
+	}
+	return false
 }
